@@ -275,7 +275,50 @@ func c03ConcurrentOperators(c *Ctx) {
 	c.Count("hostile-concurrent-operators")
 }
 
+// JSON requests (EnableAcceptJsonRequest): hostile JSON texts as request values, an ABAC matcher
+// that reaches into them; no panic, no hang, an error means false.
+func c03Json(c *Ctx) {
+	deep := strings.Repeat(`{"a":`, 2000) + "1" + strings.Repeat("}", 2000)
+	texts := []string{`{}`, `{"Name":null}`, `{"Name":{"Name":"x"}}`, `{"Name":[1,2,3]}`, `{"Name":1e400}`, `{"Name":"a","Name":"b"}`,
+		`{"Name":"\u0000"}`, `{"":""}`, `{"Name":true,"Age":"old"}`, deep, `{"Name":"` + strings.Repeat("x", 70000) + `"}`, "{\"Name\":\"\xff\xfe\"}",
+		`null`, `[]`, `{"Age":-0}`, `{"Age":9223372036854775808}`, ` { "Name" : "alice" } `, `{"Name":"alice"}garbage`}
+	models := []string{
+		"[request_definition]\nr = sub, obj, act\n[policy_definition]\np = sub, obj, act\n[policy_effect]\ne = some(where (p.eft == allow))\n[matchers]\nm = r.sub.Name == p.sub && r.obj == p.obj && r.act == p.act\n",
+		"[request_definition]\nr = sub, obj, act\n[policy_definition]\np = sub, obj, act\n[policy_effect]\ne = some(where (p.eft == allow))\n[matchers]\nm = r.sub.Age > 18 && r.sub.Name.Name == p.sub || r.obj.a.a == 1\n",
+		"[request_definition]\nr = sub, obj, act\n[policy_definition]\np = sub, obj, act\n[policy_effect]\ne = !some(where (p.eft == deny))\n[matchers]\nm = r.sub == p.sub && keyMatch(r.obj, p.obj)\n",
+	}
+	for mi, text := range models {
+		m, err := model.NewModelFromString(text)
+		if err != nil {
+			continue
+		}
+		e, err := casbin.NewEnforcer(m)
+		if err != nil {
+			continue
+		}
+		e.EnableAcceptJsonRequest(true)
+		_, _ = e.AddPolicy("alice", "data1", "read")
+		_, _ = e.AddPolicy("x", `{"a":1}`, "read")
+		for _, a := range texts {
+			for _, b := range []string{"data1", `{"a":{"a":1}}`, a} {
+				var ok bool
+				var err error
+				req := []interface{}{a, b, "read"}
+				if s := c03Guarded(func() { ok, err = e.Enforce(req...) }); s != "" {
+					c.Direct(fmt.Sprintf("c03.json.%d", mi), "Enforce with a JSON request value did not return: "+s, fmt.Sprintf("%.200q %.200q", a, b))
+					return
+				}
+				if err != nil && ok {
+					c.Direct(fmt.Sprintf("c03.json.%d", mi), "Enforce returned an error together with the decision true", fmt.Sprintf("%.200q %.200q: %v", a, b, err))
+				}
+				c.Count("json-request")
+			}
+		}
+	}
+}
+
 func c03Hostile(c *Ctx) {
+	c03Json(c)
 	iters := 300
 	if c.Thorough() {
 		iters = 6000
